@@ -443,6 +443,60 @@ fn exec_tok(t: &Tok, slots: &mut Vec<Slot>, dir: &Path, big: bool) -> u32 {
     }
 }
 
+const STORM_TID: usize = 0; // result[0..8]: thread ids
+const STORM_CNT: usize = 16; // result[16..24]: progress counters
+const STORM_DONE: usize = 32;
+
+/// The registry is hammered by `nthreads` threads of a forked child (`with_mut` in a tight loop on
+/// tempfiles registered by the parent, so the handler never removes them and nothing is allocated)
+/// while the harness directs termination signals at exactly these threads: the handler runs on a
+/// thread that may be inside `REGISTRY.insert/remove`, holding a shard lock.
+fn storm_worker(shm: &'static Shm, dir: &Path, nthreads: usize) -> ! {
+    let handles: Vec<Handle<Writable>> = (0..nthreads)
+        .map(|i| {
+            gix_tempfile::writable_at(dir.join(format!("t{i}")), ContainingDirectory::Exists, AutoRemove::Tempfile)
+                .expect("create tempfile")
+        })
+        .collect();
+    // SAFETY: getpid / fork in a single-threaded process
+    shm.pids[0].store(unsafe { libc::getpid() }, SeqCst);
+    let pid = unsafe { libc::fork() };
+    if pid == 0 {
+        W_ME.store(1, SeqCst);
+        let mut joins = Vec::new();
+        for (i, mut h) in handles.into_iter().enumerate() {
+            joins.push(std::thread::spawn(move || {
+                // SAFETY: gettid
+                let tid = unsafe { libc::syscall(libc::SYS_gettid) } as u32;
+                shm.result[STORM_TID + i].store(tid, SeqCst);
+                let mut n = 0u32;
+                while shm.turn.load(SeqCst) == NO_TURN {
+                    let _ = h.with_mut(|_| ());
+                    n = n.wrapping_add(1);
+                    if n % 256 == 0 {
+                        shm.result[STORM_CNT + i].store(n, SeqCst);
+                    }
+                }
+                std::mem::forget(h);
+            }));
+        }
+        // SAFETY: getpid
+        shm.pids[1].store(unsafe { libc::getpid() }, SeqCst);
+        for j in joins {
+            let _ = j.join();
+        }
+        shm.result[STORM_DONE].store(1, SeqCst);
+        // SAFETY: end without destructors
+        unsafe { libc::_exit(0) }
+    }
+    std::mem::forget(handles);
+    while shm.turn.load(SeqCst) == NO_TURN {
+        nap();
+    }
+    // SAFETY: end without destructors
+    unsafe { libc::_exit(0) }
+}
+
 fn worker_main(shm_path: &str) -> ! {
     let shm = map_shm(Path::new(shm_path), false);
     W_SHM.store(shm as *const Shm as usize, SeqCst);
@@ -474,6 +528,9 @@ fn worker_main(shm_path: &str) -> ! {
         }
     }
     let mut slots: Vec<Slot> = Vec::new();
+    if let Ok(nt) = std::env::var("C23_STORM") {
+        storm_worker(shm, &dir, nt.parse().unwrap_or(4));
+    }
     // SAFETY: getpid
     shm.pids[0].store(unsafe { libc::getpid() }, SeqCst);
     let n = toks.len();
@@ -1062,6 +1119,62 @@ fn gen_scenario(rng: &mut Rng, die: bool) -> Vec<Tok> {
     toks
 }
 
+/// the parent registers tempfiles and forks; the child closes / writes to what it inherited (and
+/// registers files of its own), then the CHILD is signalled; afterwards the parent goes on
+fn gen_inherit(rng: &mut Rng, die: bool) -> Vec<Tok> {
+    let mut toks = Vec::new();
+    let nh = 1 + rng.usize(3);
+    let mut kinds: Vec<GKind> = Vec::new();
+    for h in 0..nh {
+        let closed = rng.chance(1, 4);
+        toks.push(Tok { op: if closed { Op::Mark } else { Op::At }, p: 0, a: h, n: h, at: None });
+        kinds.push(if closed { GKind::Closed } else { GKind::Writable });
+        if !closed && rng.chance(1, 3) {
+            toks.push(Tok { op: Op::With, p: 0, a: h, n: 0, at: None });
+        }
+    }
+    toks.push(Tok { op: Op::Fork, p: 0, a: 1, n: 0, at: None });
+    let mut child_kinds = kinds.clone();
+    let mut label = nh;
+    let steps = 1 + rng.usize(4);
+    let mut signalled = false;
+    for s in 0..steps {
+        let last = s + 1 == steps;
+        if rng.chance(1, 5) {
+            toks.push(Tok { op: if rng.chance(1, 3) { Op::Mark } else { Op::At }, p: 1, a: label, n: 3 + rng.usize(3), at: None });
+            label += 1;
+            continue;
+        }
+        let h = rng.usize(nh);
+        let op = if child_kinds[h] == GKind::Writable && rng.chance(1, 2) { Op::Close } else { Op::With };
+        let mut tok = Tok { op, p: 1, a: h, n: 0, at: None };
+        if child_kinds[h] == GKind::Writable && (last || rng.chance(1, 4)) && rng.chance(1, 3) && !signalled {
+            tok.at = Some(*rng.pick(&[1u32, 1, 2][..if op == Op::With { 3 } else { 2 }]));
+            signalled = true;
+        }
+        if op == Op::Close && child_kinds[h] == GKind::Writable {
+            child_kinds[h] = GKind::Closed;
+        }
+        toks.push(tok);
+        if signalled && die {
+            break;
+        }
+    }
+    if !signalled {
+        toks.push(Tok { op: Op::Signal, p: 1, a: 0, n: 0, at: None });
+    }
+    // the parent's files must still be there and still be the parent's
+    for h in 0..nh {
+        if kinds[h] == GKind::Writable && rng.chance(1, 2) {
+            toks.push(Tok { op: Op::With, p: 0, a: h, n: 0, at: None });
+        }
+    }
+    if rng.chance(1, 2) {
+        toks.push(Tok { op: Op::Signal, p: 0, a: 0, n: 0, at: None });
+    }
+    toks
+}
+
 /// `@k` on a call that turns out to be a `badkind` no-op is not a valid scenario (the model says
 /// bad-op): the generator knows the kinds exactly except after a signal has emptied slots, which
 /// does not change kinds. Close/Take change kind only on success; on `gone` the worker's slot is
@@ -1089,6 +1202,11 @@ fn corpus() -> Vec<(bool, bool, &'static str)> {
         (true, true, "A0.0.0 F0.1 F1.2 A2.1.1 A1.2.2 S2 S1 S0"),
         (true, false, "A0.0.0 M0.1.1 S0"),
         (true, false, "A0.0.0 P0.0.0 A0.1.1 W0.1@1"),
+        // a forked child works with the handles it inherited, then it is the child that is signalled
+        (true, true, "A0.0.0 F0.1 C1.0 S1 W0.0 S0"),
+        (false, true, "A0.0.0 A0.1.1 F0.1 W1.0 C1.1 S1 W1.0 W0.0 W0.1 S0"),
+        (true, true, "A0.0.0 M0.1.1 F0.1 W1.0 A1.2.2 C1.0@1"),
+        (false, true, "A0.0.0 F0.1 C1.0@1 C1.0 S1 F0.2 C2.0 S2 C0.0 S0"),
         (true, true, "A0.0.0 A0.1.0 E0"),
         (false, true, "A0.0.0 S0 A0.1.0 S0 P0.0.1 C0.1 P0.1.2"),
     ]
@@ -1323,6 +1441,9 @@ fn main() {
                         run_sc(&mut rep, &base, &mut serial, die, handled, &toks);
                     }
                 }
+                ["storm", nt, ns] => {
+                    storm_run(&mut rep, &base, &mut serial, nt.parse().unwrap_or(4), ns.parse().unwrap_or(6000));
+                }
                 ["rnd", _hd, _nfin, _obs, rest @ ..] => {
                     // timing cannot be replayed: run the same script with fresh random delays
                     if let Some(toks) = parse_toks(rest) {
@@ -1349,6 +1470,16 @@ fn main() {
         let _ = i;
         run_sc(&mut rep, &base, &mut serial, die || !handled, handled, &toks);
     }
+    let n_inherit = args.budget(30, 400);
+    for _ in 0..n_inherit {
+        let die = rng.chance(1, 2);
+        let toks = gen_inherit(&mut rng, die);
+        run_sc(&mut rep, &base, &mut serial, die, true, &toks);
+    }
+    for _ in 0..args.budget(2, 10) {
+        let nthreads = 2 + rng.usize(5);
+        storm_run(&mut rep, &base, &mut serial, nthreads, if args.thorough { 20000 } else { 6000 });
+    }
     let scripts = args.budget(2, 12);
     let per = if args.thorough { 60 } else { 20 };
     for _ in 0..scripts {
@@ -1356,6 +1487,87 @@ fn main() {
         free_runs(&mut rep, &base, &mut serial, &mut rng, &toks, per);
     }
     rep.finish();
+}
+
+const HANG_KEY: &str = "handler-hang: a termination signal delivered to a thread that is inside the registry never returns";
+
+/// see `storm_worker`; the process must keep going and finish when told to
+fn storm_run(rep: &mut Report, base: &Path, serial: &mut u64, nthreads: usize, nsignals: u64) {
+    *serial += 1;
+    let op = format!("storm {nthreads} {nsignals}");
+    let dir = base.join(format!("st{serial}"));
+    let _ = std::fs::remove_dir_all(&dir);
+    std::fs::create_dir_all(&dir).expect("scenario dir");
+    let shm_path = base.join(format!("stshm{serial}"));
+    let shm = map_shm(&shm_path, true);
+    shm.turn.store(NO_TURN, SeqCst);
+    let exe = std::env::current_exe().expect("current exe");
+    let mut child = std::process::Command::new(exe)
+        .env("C23_WORKER", &shm_path)
+        .env("C23_DIR", &dir)
+        .env("C23_SCRIPT", "")
+        .env("C23_MODE", "cont")
+        .env("C23_STORM", nthreads.to_string())
+        .stdin(std::process::Stdio::null())
+        .spawn()
+        .expect("spawn worker");
+    let deadline = Instant::now() + Duration::from_secs(60);
+    let ready = |shm: &Shm| shm.pids[1].load(SeqCst) != 0 && (0..nthreads).all(|i| shm.result[STORM_TID + i].load(SeqCst) != 0);
+    while !ready(shm) && Instant::now() < deadline {
+        nap();
+    }
+    rep.oracle_only(&op, true);
+    rep.oracle_checked();
+    rep.bucket("storm");
+    let mut problem: Option<String> = None;
+    if !ready(shm) {
+        eprintln!("c23: storm worker did not start");
+        std::process::exit(4);
+    }
+    let pid = shm.pids[1].load(SeqCst);
+    let mut sent = 0u64;
+    let mut last_seen = shm.sig_seen[1].load(SeqCst);
+    let mut last_change = Instant::now();
+    while sent < nsignals {
+        let tid = shm.result[STORM_TID + (sent as usize % nthreads)].load(SeqCst) as i32;
+        let sig = [libc::SIGTERM, libc::SIGINT][(sent % 2) as usize];
+        // SAFETY: tgkill directs the signal at one thread of the child
+        unsafe { libc::syscall(libc::SYS_tgkill, pid, tid, sig) };
+        sent += 1;
+        let t = Instant::now();
+        while t.elapsed() < Duration::from_micros(15) {
+            std::hint::spin_loop();
+        }
+        let seen = shm.sig_seen[1].load(SeqCst);
+        if seen != last_seen {
+            last_seen = seen;
+            last_change = Instant::now();
+        } else if last_change.elapsed() > Duration::from_secs(8) {
+            problem = Some(format!("no signal was handled for 8 s after {sent} signals ({seen} handled)"));
+            break;
+        }
+    }
+    shm.turn.store(0, SeqCst);
+    let t_end = Instant::now() + Duration::from_secs(15);
+    while shm.result[STORM_DONE].load(SeqCst) == 0 && Instant::now() < t_end {
+        nap();
+    }
+    if shm.result[STORM_DONE].load(SeqCst) == 0 && problem.is_none() {
+        let counts: Vec<u32> = (0..nthreads).map(|i| shm.result[STORM_CNT + i].load(SeqCst)).collect();
+        problem = Some(format!(
+            "the threads did not finish within 15 s of being told to stop ({sent} signals sent, {} handled, with_mut counts {counts:?})",
+            shm.sig_seen[1].load(SeqCst)
+        ));
+    }
+    if let Some(pb) = problem {
+        rep.oracle_failure(HANG_KEY, &pb, &op);
+    }
+    kill_all(shm);
+    let _ = child.wait();
+    let _ = std::fs::remove_dir_all(&dir);
+    let _ = std::fs::remove_file(&shm_path);
+    // SAFETY: unmap
+    unsafe { libc::munmap(shm as *const Shm as *mut libc::c_void, std::mem::size_of::<Shm>()) };
 }
 
 fn free_runs(rep: &mut Report, base: &Path, serial: &mut u64, rng: &mut Rng, toks: &[Tok], runs: u64) {
